@@ -24,6 +24,7 @@ func init() { props["C18"] = runC18 }
 var c18Voc = []string{"frozen", "ueth", "ukex"} // ascending string order = ids 0,1,2
 
 type h18 struct {
+	claims int // claims so far (every twelfth one is preceded by a genesis round trip of x/spending)
 	r    *Rec
 	w    *World
 	ctx  sdk.Context
@@ -52,6 +53,16 @@ func cls(err error) string {
 		return "panic"
 	}
 	return "err"
+}
+
+// reimport: one module's state goes through its own genesis export / import on the live store (World.ReimportModuleInPlace);
+// the model is not told: for these modules the round trip must be the identity, and whatever follows must behave as before
+func (h *h18) reimport(module string) {
+	if f := h.w.ReimportModuleInPlace(h.ctx, module, module); f != nil {
+		h.r.Fail("C18/genesis/reimport-failed", fmt.Sprintf("%s InitGenesis of the exported state failed: %v", module, f), nil)
+	}
+	h.r.Mark("reimport of module " + module)
+	h.r.Count("reimport:" + module)
 }
 
 func (h *h18) at(t int64) sdk.Context { return h.ctx.WithBlockTime(time.Unix(t, 0).UTC()) }
@@ -552,6 +563,9 @@ func (h *h18) doRegister(t int64, who int, name string) string {
 }
 
 func (h *h18) doClaim(t int64, who int, name string, history []string) string {
+	if h.claims++; h.claims%12 == 0 {
+		h.reimport("spending") // the claim cursors, pool balances and beneficiary registrations must survive a genesis round trip
+	}
 	b := h.snap()
 	msg := spendingtypes.NewMsgClaimSpendingPool(name, h.acc[who])
 	err := withCache(h.at(t), func(cc sdk.Context) error { _, e := h.ms.ClaimSpendingPool(sdk.WrapSDKContext(cc), msg); return e })
